@@ -356,6 +356,9 @@ def c14_3(ctx):
     # an operand the expression lexer cannot tokenise completely must not be accepted with the odd characters dropped
     from rules.c07 import c07_4
     c07_4(ctx)
+    # ... nor may an operand form accept a valid prefix and drop the rest of the operand
+    from rules.c13 import c13_8
+    c13_8(ctx)
     from rules.c12 import c12_1, c12_3, c12_4
     c12_1(ctx)
     c12_3(ctx)
